@@ -48,11 +48,12 @@ def run(ctx):
                 u = rng.randrange(1, 6)
                 if kind == 0:
                     a = PLI.AddPlayerAction()
-                    a.uuid, a.name, a.properties = u, rng.choice(names), []
+                    a.uuid, a.name = u, rng.choice(names)
+                    a.properties = [('textures', 'v%d' % rng.randrange(1000))] * rng.randrange(0, 3)
                     a.gamemode, a.ping = rng.randrange(4), rng.randrange(500)
                     a.display_name = rng.choice([None, 'dn', ''])
                     toks.append('add:%d:%s:%d:%d:%s' % (u, h(a.name), a.gamemode, a.ping, h(a.display_name)))
-                    ref[u] = [a.name, a.gamemode, a.ping, a.display_name]
+                    ref[u] = [a.name, a.gamemode, a.ping, a.display_name, list(a.properties)]
                 elif kind == 1:
                     a = PLI.UpdateGameModeAction()
                     a.uuid, a.gamemode = u, rng.randrange(4)
@@ -89,8 +90,9 @@ def run(ctx):
         impl.append(got.rstrip())
         want = 'ok ' + ' '.join('%d:%s:%d:%d:%s' % (u, h(v[0]), v[1], v[2], h(v[3])) for u, v in ref.items())
         ctx.case(('plist', lines[-1]), sample={'history': lines[-1][:160], 'impl': got[:120]})
-        if got.rstrip() != want.rstrip():
-            ctx.violation('player list after the history differs from an in-order replay',
+        props_ok = all(list(pl.players_by_uuid[u].properties) == ref[u][4] for u in ref if u in pl.players_by_uuid)
+        if got.rstrip() != want.rstrip() or not props_ok:
+            ctx.violation('player list after the history differs from an in-order replay' + ('' if props_ok else ' (properties)'),
                           {'history': lines[-1], 'impl': got, 'replay': want}, key={'plist': lines[-1]})
     for line, mo, g in zip(lines, ctx.driver.ask(lines), impl):
         if mo.rstrip() != g:
@@ -287,6 +289,35 @@ def run(ctx):
         eq = r1 == r2
         if eq != (a == b) or (r1 != r2) == eq or (eq and hash(r1) != hash(r2)):
             ctx.violation('record equality/hash law', {'a': a, 'b': b, 'eq': eq}, key={'rec': [a, b]})
+    # partially assigned records (slots never set): whatever == answers, "equal" must imply equal hashes and
+    # field-wise equality, and == must be symmetric; raising (the library's present behaviour) is fine
+    PAL = U.PositionAndLook
+    fields_ = ['x', 'y', 'z', 'yaw', 'pitch']
+    partial = []
+    for mask in range(32):
+        for val in (1.0, 90.0):
+            partial.append(PAL(**{f: val for i, f in enumerate(fields_) if mask >> i & 1}))
+    ctx.case(('partial-records', len(partial)))
+    for a_ in partial:
+        for b_ in partial:
+            try:
+                eq = a_ == b_
+            except AttributeError:
+                continue
+            try:
+                eq_rev = b_ == a_
+            except AttributeError:
+                eq_rev = None
+            fa = {f: getattr(a_, f, '<unset>') for f in fields_}
+            fb = {f: getattr(b_, f, '<unset>') for f in fields_}
+            if eq and (fa != fb or hash(a_) != hash(b_)) or (eq_rev is not None and eq_rev != eq):
+                ctx.violation('records %r and %r: == gives %s / %s reversed, hashes %s, fields %s'
+                              % (fa, fb, eq, eq_rev, 'equal' if hash(a_) == hash(b_) else 'differ', 'equal' if fa == fb else 'differ'),
+                              {'a': repr(fa), 'b': repr(fb)}, key={'kind': 'partial-records'})
+                break
+        else:
+            continue
+        break
     # every record class of the library (base classes first, then the classes derived from them) and a
     # user-defined pair: equality/hash/repr cover ALL slots of the class, inherited and own
     class UBase(U.MutableRecord):
